@@ -76,7 +76,7 @@ impl Scenario for Icmp {
 
     fn budget(&self, tier: Tier) -> u64 {
         match tier {
-            Tier::Quick => 50_000,
+            Tier::Quick => 300_000,
             Tier::Thorough => 5_000_000,
         }
     }
@@ -111,13 +111,28 @@ impl Scenario for Icmp {
                         next_seq[client] = next_seq[client].wrapping_add(1);
                         next_seq[client]
                     };
+                    // now and then the identifier and sequence number of an earlier request, of
+                    // any client and to any destination (the other family included), are used again
+                    let earlier: Vec<(u16, u16)> = ops
+                        .iter()
+                        .filter_map(|o| match o {
+                            IOp::Request { id, seq, .. } => Some((*id, *seq)),
+                            _ => None,
+                        })
+                        .collect();
+                    let (id, seq, again) = if !earlier.is_empty() && rng.chance(1, 6) {
+                        let (i, s) = *rng.pick(&earlier);
+                        (i, s, true)
+                    } else {
+                        (*rng.pick(&ids), seq, false)
+                    };
                     ops.push(IOp::Request {
                         client,
-                        id: *rng.pick(&ids),
+                        id,
                         dst: rng.usize_below(DSTS.len()),
                         seq,
                         ttl: *rng.pick(&[1u8, 2, 64, 128, 255, 0]),
-                        size: match rng.below(10) {
+                        size: match if again { rng.below(3) } else { rng.below(10) } {
                             0 => 0,
                             1 => 1,
                             2 => 56,
@@ -972,11 +987,50 @@ fn judge(plan: &IPlan, o: &Obs, out: &mut Outcome) {
                         }
                         let clients_ok: Vec<usize> = cands.iter().map(|n| req_sent[*n].client).collect();
                         if !clients_ok.contains(&r.client) {
-                            out.violate(
-                                "C11",
-                                format!("icmp:{}:{}:reported-to-wrong-client", fam, kind_name),
-                                format!("op {} answers a request of client(s) {:?}, client {} was told", d.op, clients_ok, r.client),
-                            );
+                            // the narrow circumstance of the known finding: the client told has a
+                            // pending request with the same identifier and sequence number (same
+                            // family) but other data, and a third pending request carries data
+                            // that is a prefix of both (the table keeps all three under one entry)
+                            let same_key = |n: usize| -> Option<&[u8]> {
+                                let sw = req_sent[n].wire.as_ref()?;
+                                if sw.packet.len() < 8 || sw.t_us > d.at || d.at - sw.t_us > t_us + eps || sw.dst.is_ipv4() != v4 {
+                                    return None;
+                                }
+                                let sid = u16::from_be_bytes([sw.packet[4], sw.packet[5]]);
+                                let sseq = u16::from_be_bytes([sw.packet[6], sw.packet[7]]);
+                                (sid == pid && sseq == pseq).then(|| &sw.packet[8..])
+                            };
+                            let prefix_related = |a: &[u8], b: &[u8]| if a.len() <= b.len() { b.starts_with(a) } else { a.starts_with(b) };
+                            let merged = (0..req_sent.len()).any(|n| {
+                                req_sent[n].client == r.client
+                                    && !cands.contains(&n)
+                                    && same_key(n).map_or(false, |rival| {
+                                        (0..req_sent.len()).any(|x| {
+                                            x != n
+                                                && same_key(x).map_or(false, |bridge| {
+                                                    bridge.len() < rival.len()
+                                                        && rival.starts_with(bridge)
+                                                        && pdata.as_ref().map_or(true, |pd| prefix_related(pd, bridge))
+                                                })
+                                        })
+                                    })
+                            });
+                            if merged {
+                                out.violate(
+                                    "C11",
+                                    "icmp:waiters-merged-by-shorter-data:reported-to-wrong-client",
+                                    format!(
+                                        "op {} answers a request of client(s) {:?}, client {} was told (its own pending request has the same identifier and sequence number but other data; a third pending request with shorter data is a prefix of both)",
+                                        d.op, clients_ok, r.client
+                                    ),
+                                );
+                            } else {
+                                out.violate(
+                                    "C11",
+                                    format!("icmp:{}:{}:reported-to-wrong-client", fam, kind_name),
+                                    format!("op {} answers a request of client(s) {:?}, client {} was told", d.op, clients_ok, r.client),
+                                );
+                            }
                         }
                         let mut wrong = Vec::new();
                         if r.id != pid {
